@@ -30,6 +30,7 @@ Inductive cell : Set :=
 | CPMKeys                    (* keys and capacity PatternMatches::clear() retains *)
 | CPMMax                     (* PatternMatches::max_matches_per_pattern *)
 | CPerNsKeys                 (* keys of matching_rules_per_ns (kept by the drain) *)
+| CLocalUserOutputs          (* the local variable of scan_impl holding the taken user-supplied outputs *)
 | CTL (t : tl_cache).
 
 Definition cell_eqb (a b : cell) : bool :=
@@ -38,19 +39,20 @@ Definition cell_eqb (a b : cell) : bool :=
   | CKind, CKind | CGFilesize, CGFilesize | CGPsd, CGPsd | CMRuleBits, CMRuleBits
   | CMPatBits, CMPatBits | CMVars, CMVars | CEpochDeadline, CEpochDeadline
   | CEpochCallback, CEpochCallback | CRootGlobals, CRootGlobals | CRootModules, CRootModules
-  | CPMKeys, CPMKeys | CPMMax, CPMMax | CPerNsKeys, CPerNsKeys => true
+  | CPMKeys, CPMKeys | CPMMax, CPMMax | CPerNsKeys, CPerNsKeys
+  | CLocalUserOutputs, CLocalUserOutputs => true
   | CTL s, CTL t => tl_cache_beq s t
   | _, _ => false
   end.
 
 Definition other_cells : list cell :=
   [CKind; CGFilesize; CGPsd; CMRuleBits; CMPatBits; CMVars; CEpochDeadline; CEpochCallback;
-   CRootGlobals; CRootModules; CPMKeys; CPMMax; CPerNsKeys].
+   CRootGlobals; CRootModules; CPMKeys; CPMMax; CPerNsKeys; CLocalUserOutputs].
 Definition all_cells : list cell := map CF all_fields ++ other_cells ++ map CTL all_tl_caches.
 
 (* ---- classification (DESIGN.md appendix A, re-read against the code) ----
    No wildcard over [field]: a new field makes this definition fail. *)
-Inductive class := Structural | Persistent | Consumed | Cache | Scratch | Transient | Profiling.
+Inductive class := Structural | Persistent | Consumed | Cache | Scratch | Transient | Profiling | Nonce.
 
 Definition classify_field (f : field) : class :=
   match f with
@@ -69,6 +71,8 @@ Definition classify_field (f : field) : class :=
   | ctx_user_provided_module_outputs => Consumed   (* set_module_output, consumed by one scan *)
   | ctx_tracker => Structural
   | ctx_deadline => Transient
+  | ctx_scan_id => Nonce                           (* unique per scan by construction; only compared for equality
+                                                      with the tag of the per-thread caches (see SNewScanId) *)
   | ctx_regex_cache => Cache                       (* RegexId -> compiled regexp of the immutable rules *)
   | ctx_regex_set_cache => Cache
   | ctx_custom_base64_engine_cache => Cache
@@ -113,6 +117,7 @@ Definition classify (c : cell) : class :=
   | CPMKeys => Cache                  (* every reader uses len()/iteration: Some(empty) = None *)
   | CPMMax => Persistent              (* max_matches_per_pattern *)
   | CPerNsKeys => Cache
+  | CLocalUserOutputs => Scratch      (* written (taken) before it is read, dropped when scan_impl returns *)
   | CTL _ => Transient                (* per file; shared by all scanners of the thread *)
   end.
 
@@ -188,15 +193,19 @@ Definition probe_tag (i u : N) : N := 1 + i + 1000 * u.
 (* the module loop of scan_impl, in closed form.  [upto] = None: all imported
    modules are processed; Some i: the main function of module number i fails
    (modules before i processed, i's main function ran, the rest untouched). *)
-Definition module_loop (E : env) (upto : option N) (st : state) : state :=
-  let u := st (CF ctx_user_provided_module_outputs) in
+Definition module_loop (E : env) (local : bool) (upto : option N) (st : state) : state :=
+  let ucell := if local then CLocalUserOutputs else CF ctx_user_provided_module_outputs in
+  let u := st ucell in
   let reached m := match upto with None => true | Some i => mod_bit E m <=? i end in
   fun c =>
     match c with
     | CF ctx_module_outputs => probe_tag (inp E) u + match upto with None => 0 | Some i => 1 + i end
     | CRootModules => probe_tag (inp E) u + match upto with None => 0 | Some i => 1 + i end
     | CF ctx_user_provided_module_outputs =>
+        if local then st c else
         match upto with None => st c | Some i => N.shiftl (N.shiftr u i) i end   (* entries before i removed *)
+    | CLocalUserOutputs =>
+        if local then match upto with None => st c | Some i => N.shiftl (N.shiftr u i) i end else st c
     | CTL t => if imported E (tl_module t) && reached (tl_module t)
                   && negb (supplied u E (tl_module t)) && tl_cleared_by_main t
                then 0 else st c
@@ -224,11 +233,25 @@ Section Exec.
     | SSetGlobalFilesize => (upd st CGFilesize (1 + inp E), true)
     | SSetGlobalPsd b => (upd st CGPsd (if b then 1 else 0), true)
     | SSetScanState t => (upd st (CF ctx_scan_state) t, true)
-    | SModuleLoop early =>
+    | SModuleLoop early local =>
         match out E with
-        | ModErr i => (module_loop E (Some i) st, negb early)
-        | _ => (module_loop E None st, true)
+        | ModErr i => (module_loop E local (Some i) st, negb early)
+        | _ => (module_loop E local None st, true)
         end
+    | SNewScanId =>
+        (* a new, process-wide unique scan id: from now on every access to a scan-scoped per-thread
+           cache (GENERATED: tl_scan_scoped, the check precedes every access) finds a foreign tag and
+           drops the cache first; modelled as dropping them here *)
+        ((fun c => match c with
+                   | CF ctx_scan_id => st c + 1
+                   | CTL t => if tl_scan_scoped t then 0 else st c
+                   | _ => st c
+                   end), true)
+    | SUndefFilesize => (upd st CGFilesize 0, true)
+    | SClearModuleStructs => (upd st CRootModules 0, true)    (* structures without values: carry nothing of a scanned file *)
+    | STakeUserOutputs =>
+        (upd (upd st CLocalUserOutputs (st (CF ctx_user_provided_module_outputs))) (CF ctx_user_provided_module_outputs) 0, true)
+    | SDropUserOutputs => (upd st CLocalUserOutputs 0, true)
     | SSearch =>
         (upd (havoc search_writes E st) CGPsd 1,
          match out E with Complete => true | _ => false end)
